@@ -56,18 +56,28 @@ package performance
 //@ lemma perf_flow_only [C20]: forall v0 float64, fin float64, fout float64 :: v0 + fin != 0.0 ==> perfOf(v0, v0 + fin + fout, fin, fout) == 1.0
 //@ lemma perf_no_flow [C20]: forall v0 float64, v1 float64 :: v0 != v1 ==> perfOf(v0, v1, 0.0, 0.0) == v1 / v0
 //
-// Perf (day end): days outside the reporting window are ignored; inside, the running product is
+// Perf (day end): days outside the reporting window AND days before the first reported period (with
+// --last n the partition shows only the last n periods of the window) are ignored; inside, the running product is
 // multiplied by the day's factor; on a period end day the percentage 100*(product-1) is printed and the
 // product restarts at 1 - so a period's return is the chained product of its days.
+// Perf (constructor): adds the period end days to the builder and captures the period start dates - the
+// captured-state precondition @starts of the day-end callback is an obligation here.
+//@ func Perf
+//@   requires wfBuilder(j)
+//@   modifies j.days[*]
+//@   ensures [C20] result != nil && wfBuilder(j)
+//
+//@ def inShown(part date.Partition, t time.Time) bool := part.span.Start <= t && t <= part.span.End && (len(part.periods) == 0 || part.periods[0].Start <= t)
 //@ func Perf$1
 //@   requires d != nil && d.Performance != nil && ds != nil
+//@   requires @starts: len(starts) == len(part.periods) && (len(starts) > 0 ==> starts[0] == part.periods[0].Start)
 //@   modifies running
 //@   callback Performance=0
 //@   callback Printf=1
 //@   ensures result == nil
-//@   ensures [C20] @outside: !(old(part.span.Start) <= d.Date && d.Date <= old(part.span.End)) ==> running == old(running) && tlen() == old(tlen())
-//@   ensures [C20] @chain: (old(part.span.Start) <= d.Date && d.Date <= old(part.span.End)) && !(d in ds) ==> tlen() == old(tlen()) + 1 && running == old(running) * tres("Performance", old(tlen()))
-//@   ensures [C20] @report: (old(part.span.Start) <= d.Date && d.Date <= old(part.span.End)) && (d in ds) ==> tlen() == old(tlen()) + 2 && running == 1.0
+//@   ensures [C20] @outside: !inShown(old(part), d.Date) ==> running == old(running) && tlen() == old(tlen())
+//@   ensures [C20] @chain: inShown(old(part), d.Date) && !(d in ds) ==> tlen() == old(tlen()) + 1 && running == old(running) * tres("Performance", old(tlen()))
+//@   ensures [C20] @report: inShown(old(part), d.Date) && (d in ds) ==> tlen() == old(tlen()) + 2 && running == 1.0
 //@        && typeIs(targ("Printf", 1, old(tlen()) + 1)[1], "float64") && dyn(targ("Printf", 1, old(tlen()) + 1)[1], "float64") == 100.0 * (old(running) * tres("Performance", old(tlen())) - 1.0)
 //
 // ComputeFlows: the portfolio-level flow accumulator restarts at zero EVERY day, and the day's flows are
